@@ -722,7 +722,13 @@ pub fn compress(values: &[FixWord], max_size: u8) -> (Vec<FixWord>, HashMap<FixW
     // Invariant: delta=upper is always solution.
     // To initialize upper and begin the search we construct a solution that always works: a single
     // interval encompassing the entire slice and the largest delta possible.
-    let max_delta = *dedup_values.last().unwrap() - *dedup_values.first().unwrap();
+    // The distance between two values can be as large as 4096, which doesn't fit in a FixWord.
+    // Distances saturate at the largest FixWord; this doesn't change any comparison below.
+    let distance = |large: FixWord, small: FixWord| FixWord(large.0.saturating_sub(small.0));
+    let max_delta = distance(
+        *dedup_values.last().unwrap(),
+        *dedup_values.first().unwrap(),
+    );
     let mut upper = max_delta;
     let mut solution = vec![dedup_values.len()];
 
@@ -741,7 +747,7 @@ pub fn compress(values: &[FixWord], max_size: u8) -> (Vec<FixWord>, HashMap<FixW
         // This is the minimum of all gaps that start a new interval.
         let mut delta_upper = max_delta;
         for (i, &v) in dedup_values.iter().enumerate() {
-            let gap = v - interval_start;
+            let gap = distance(v, interval_start);
             if gap > delta {
                 // We need to start a new interval
                 if gap < delta_upper {
@@ -787,7 +793,9 @@ pub fn compress(values: &[FixWord], max_size: u8) -> (Vec<FixWord>, HashMap<FixW
                 .expect("the `result` array contains at least 1 element so this is never 0");
             value_to_index.insert(v, index);
         }
-        let replacement = (*interval.last().unwrap() + *interval.first().unwrap()) / 2;
+        let replacement = FixWord(
+            ((interval.last().unwrap().0 as i64 + interval.first().unwrap().0 as i64) / 2) as i32,
+        );
         result.push(replacement);
     }
 
